@@ -54,16 +54,24 @@ class LockSpec:
         c = f._cache.get("lock_keep")
         if c is None:
             c = set()
-            for bid, i in flow.all_events(f):
-                for lhs, var, op, rhs in flow.stores(f, i):
-                    if rhs is None:
-                        continue
-                    r = f.exprs[ex.skip(f, rhs)]
-                    if r["k"] == "call" and r.get("callee") == TRYLOCK:
-                        if var is not None:
-                            c.add(var["name"])
-                        elif lhs is not None and f.exprs[ex.skip(f, lhs)]["k"] == "ref":
-                            c.add(f.exprs[ex.skip(f, lhs)]["name"])
+            for _ in range(3):
+                # the result itself, a flag computed from it (`locked_here = (0 == trylock ())`), a copy of such a flag
+                for bid, i in flow.all_events(f):
+                    for lhs, var, op, rhs in flow.stores(f, i):
+                        if rhs is None:
+                            continue
+                        hit = False
+                        for n_ in ex.walk(f, rhs):
+                            r = f.exprs[n_]
+                            if r["k"] == "call" and r.get("callee") == TRYLOCK:
+                                hit = True
+                            elif r["k"] == "ref" and r.get("dk") == "local" and r.get("name") in c:
+                                hit = True
+                        if hit:
+                            if var is not None:
+                                c.add(var["name"])
+                            elif lhs is not None and f.exprs[ex.skip(f, lhs)]["k"] == "ref":
+                                c.add(f.exprs[ex.skip(f, lhs)]["name"])
             f._cache["lock_keep"] = c
         if key[0] == "v":
             return key[1] in c
